@@ -345,9 +345,22 @@ func runCase(c Case, st *ev.Stats) error {
 		var fired atomic.Bool
 		run.Runner.Hook = func(cl *rec.Call, e *am.Event) (bool, bool) {
 			if cl.Seq >= c.At && fired.CompareAndSwap(false, true) {
-				safe(m.Dispose)
+				if c.At%2 == 0 {
+					// the handler keeps running while the disposal completes in the background (it stops waiting
+					// for the queue after DisposeTimeout and closes the handler channels ~100 ms later); the
+					// transition then goes on to its next handler
+					m.DisposeTimeout = 50 * time.Millisecond
+					safe(m.Dispose)
+					time.Sleep(400 * time.Millisecond)
+				} else {
+					safe(m.Dispose)
+				}
 			}
 			return false, true
+		}
+		if c.At%4 == 0 {
+			// ... and the sleeping handler outlives the handler timeout while the disposal closes the error channel
+			m.HandlerTimeout = 100 * time.Millisecond
 		}
 		ok, p := bounded(15*time.Second, func() { rec.Apply(m, c.Holder) })
 		if !ok {
@@ -664,6 +677,8 @@ func genCase(t *rapid.T) Case {
 		if c.Trigger == "handler" || c.Trigger == "held" {
 			// make sure some handler of the holder runs
 			c.Table.Bindings[0].Handlers = append(c.Table.Bindings[0].Handlers, gen.HandlerSpec{Name: "AnyEnter"}, gen.HandlerSpec{Name: "AnyState"})
+			// a second binding of the same handlers: the transition calls it after the first one returned
+			c.Table.Bindings = append(c.Table.Bindings, gen.Binding{Handlers: []gen.HandlerSpec{{Name: "AnyEnter"}, {Name: "AnyState"}}})
 		}
 	}
 	ops := gen.HistoryOpts{MaxLen: 5, Ops: []string{"add", "remove", "toggle", "canadd"}}
@@ -703,6 +718,37 @@ func TestDispose(t *testing.T) {
 			t.Fatalf("C13 violated: %v", err)
 		}
 	})
+}
+
+// TestRegressions: fixed scenarios of repaired defects that generated search reaches only rarely.
+func TestRegressions(t *testing.T) {
+	st := ev.G()
+	// a handler calls Dispose and keeps running past the handler timeout while the disposal closes the
+	// internal error channel: the timeout report must not panic in the mutating goroutine (found by the
+	// thorough tier of C15 in a node bootstrap machine)
+	for _, handlerTimeout := range []time.Duration{0, time.Minute} {
+		m := am.New(context.Background(), am.Schema{"A": {}}, &am.Opts{Id: fmt.Sprintf("c13reg%d", time.Now().UnixNano())})
+		m.DisposeTimeout = 50 * time.Millisecond
+		if handlerTimeout > 0 {
+			m.HandlerTimeout = handlerTimeout
+		}
+		_, _ = m.HandlersBindMaps(nil, map[string]am.HandlerFinal{"AState": func(e *am.Event) {
+			m.Dispose()
+			time.Sleep(500 * time.Millisecond)
+		}})
+		_, _ = m.HandlersBindMaps(nil, map[string]am.HandlerFinal{"AState": func(e *am.Event) {}})
+		ok, p := bounded(15*time.Second, func() { m.Add1("A", nil) })
+		if !ok || p != nil {
+			t.Fatalf("C13 violated: Add1 whose handler calls Dispose and outlives the handler timeout: returned=%v panic=%v", ok, p)
+		}
+		select {
+		case <-m.WhenDisposed():
+		case <-time.After(10 * time.Second):
+			t.Fatalf("C13 violated: WhenDisposed still open 10 s after a handler called Dispose")
+		}
+		st.Eval(1)
+		st.Class("regression:dispose-in-handler-outliving-timeout")
+	}
 }
 
 func TestReplay(t *testing.T) {
